@@ -164,10 +164,58 @@ def run(repo, chk):
                "R-C05-3", "Control._conditional_control builds ValueCondition(obj, attr, operation, threshold) with the given action", loc(ccf))
     vn = repo.func(CTRL, "ValueCondition.__new__")
     chk.expect("isinstance(source_obj, Tank)" in unparse(vn) and "TankLevelCondition" in unparse(vn), "R-C05-3", "a ValueCondition on a tank's level/pressure/head is a TankLevelCondition (partial steps)", loc(vn))
-    ci = repo.func(CTRL, "Control.__init__")
-    chk.expect(re.search(r"isinstance\(condition, TankLevelCondition\):\s*self\._control_type = _ControlType\.pre_and_postsolve", unparse(ci)) is not None, "R-C05-3",
-               "tank-level controls are evaluated before the solve (with back-tracking to the threshold) and after it", loc(ci))
     chk.floor("R-C05-3", 10)
+
+    # ---------------------------------------------------------------- R-C05-5 the solve phase of a simple control follows its CURRENT condition
+    ctl_cls = repo.cls(CTRL, "Control")
+    rule_cls = repo.cls(CTRL, "Rule")
+    own = {n.name: n for n in ctl_cls.body if isinstance(n, ast.FunctionDef)}
+    inherited = {n.name: n for n in rule_cls.body if isinstance(n, ast.FunctionDef)}
+    setters = []
+    for nm, fn in list(inherited.items()) + list(own.items()):
+        if any(isinstance(a, ast.Attribute) and isinstance(a.ctx, ast.Store) and a.attr == "_condition" and unparse(a.value) == "self" for a in walk(fn)):
+            setters.append(nm)
+    for nm in sorted(set(setters)):
+        eff = own.get(nm) or inherited.get(nm)        # the method a Control object actually runs
+        sets_type = any(isinstance(a, ast.Attribute) and isinstance(a.ctx, ast.Store) and a.attr == "_control_type" for a in walk(eff)) if nm in own else False
+        via_init = nm == "__init__"
+        if nm == "__init__":
+            continue
+        chk.expect(sets_type, "R-C05-5", "Control.%s re-derives the control type when it replaces the condition" % nm, loc(CTRL, eff),
+                   "the simulator files a control under pre-solve / post-solve by _control_type, fixed from the first condition: a control whose condition was replaced by a "
+                   "tank-level condition is never checked before the solve and overshoots its threshold by a whole step", expected="self._control_type = f(condition)",
+                   found="inherited from Rule without touching _control_type" if nm not in own else "no assignment of _control_type")
+    ci_ = own.get("__init__")
+    helper = [c for c in calls(ci_) if last_attr(c) == "_control_type_of"] if ci_ is not None else []
+    tfn = own.get("_control_type_of") if helper else ci_
+    txt = unparse(tfn) if tfn is not None else ""
+    chk.expect(re.search(r"isinstance\(condition, TankLevelCondition\):\s*(return|self\._control_type =) _ControlType\.pre_and_postsolve", txt) is not None and
+               re.search(r"isinstance\(condition, \(TimeOfDayCondition, SimTimeCondition\)\):\s*(return|self\._control_type =) _ControlType\.presolve", txt) is not None, "R-C05-5",
+               "tank-level conditions are pre-and-post-solve, time conditions pre-solve, everything else post-solve", loc(CTRL, tfn) if tfn is not None else CTRL)
+    chk.floor("R-C05-5", 2)
+
+    # ---------------------------------------------------------------- R-C05-6 the partial step of a tank-level condition does not depend on who asked first
+    tle = repo.func(CTRL, "TankLevelCondition.evaluate")
+    chk.fn(tle)
+    cross = [n for n in walk(tle) if isinstance(n, ast.If) and isinstance(n.test, ast.BoolOp) and "state" in unparse(n.test) and "not relation(" in unparse(n.test)]
+    if not cross:
+        raise ExtractError("TankLevelCondition.evaluate: threshold-crossing test not found")
+    neg = [v for v in cross[0].test.values if isinstance(v, ast.UnaryOp)][0].operand
+    prev_expr = neg.args[0]
+    while isinstance(prev_expr, ast.Call) and prev_expr.args:
+        prev_expr = prev_expr.args[0]             # np.round(x, 10) -> x
+    own_state = {a.attr for a in walk(tle) if isinstance(a, ast.Attribute) and isinstance(a.ctx, ast.Store) and unparse(a.value) == "self"}
+    if isinstance(prev_expr, ast.Name):
+        defs = [a for a in walk(tle) if isinstance(a, ast.Assign) and any(isinstance(t, ast.Name) and t.id == prev_expr.id for t in a.targets)]
+        from_tank = any("_prev_head" in unparse(a.value) or any(isinstance(x, ast.Name) and x.id == "prev_head" for x in ast.walk(a.value)) for a in defs)
+        okp = from_tank
+        found = [norm(a) for a in defs]
+    else:
+        okp = not (isinstance(prev_expr, ast.Attribute) and unparse(prev_expr.value) == "self" and prev_expr.attr in own_state)
+        found = unparse(prev_expr)
+    chk.expect(okp, "R-C05-6", "the 'value at the last accepted step' a tank-level condition compares with comes from the tank, not from a field evaluate() overwrites", loc(tle, cross[0]),
+               "evaluate() sets self._last_value on every call: the second control that shares the condition object (the simulator itself pairs every setting control with a "
+               "status control on the SAME condition) sees 'already beyond the threshold' and gets no partial step", expected="derived from tank._prev_head", found=found)
 
     # ---------------------------------------------------------------- R-C05-4 firing order of triggered controls
     # tank-level / pressure controls are pre-and-post-solve: among the controls triggered in one step the scheduler must take the one
@@ -178,6 +226,8 @@ def run(repo, chk):
 
 
 WITNESSES = [
+    dict(name="update-condition-keeps-old-type", file=CTRL, old="        super().update_condition(condition)\n        self._control_type = self._control_type_of(condition)\n", new="        super().update_condition(condition)\n", rule="R-C05-5"),
+    dict(name="tank-condition-compares-with-own-memo", file=CTRL, old="        if state and not relation(np.round(last_value,10), np.round(thresh_value,10)):", new="        if state and not relation(np.round(self._last_value,10), np.round(thresh_value,10)):", rule="R-C05-6"),
     dict(name="presolve-priority-before-time", file=CORE, old="        presolve_controls_to_run.sort(key=lambda i: i[1], reverse=True)\n", new="        presolve_controls_to_run.sort(key=lambda i: (i[0]._priority, -i[1]))\n", rule="R-C05-4"),
     dict(name="save-before-change-test", file=CORE, old="            self._run_postsolve_controls()\n            self._run_feasibility_controls()\n            if self._change_tracker.changes_made(ref_point='graph'):",
          new="            self._run_postsolve_controls()\n            self._run_feasibility_controls()\n            if isinstance(self._report_timestep, str):\n                wntr.sim.hydraulics.save_results(self._wn, node_res, link_res)\n            if self._change_tracker.changes_made(ref_point='graph'):", rule="R-C05-1"),
